@@ -250,7 +250,7 @@ func setRapidSteps(n int) {
 
 const maxOpsSmall = 40
 
-// TestStateMachine: small histories (<= 40 operations) over all 72 methods, several operations per transaction, drawn
+// TestStateMachine: small histories (<= 40 operations) over all 69 methods, several operations per transaction, drawn
 // aborts, close + reopen, reads through Read (outside a transaction) as well as inside Write.
 func TestStateMachine(t *testing.T) {
 	ev.Checks(500, 3000)
@@ -357,6 +357,8 @@ func TestStateMachine(t *testing.T) {
 
 		scan("at the end of the case")
 		c.finish(t)
+
+		stateMachineCases++
 	})
 }
 
@@ -392,12 +394,19 @@ func bulkCase(t *rapid.T, method string) {
 			hint := g.flag(msgFlag)
 			extra := rapid.IntRange(0, 5).Draw(t, "extra")
 			inB := rapid.IntRange(0, 2).Draw(t, "inB")
+			if method == "DeleteMessages" {
+				inB = 0 // callers delete messages that are in no mailbox
+			}
 
 			var boxes []imap.InternalMailboxID
 
 			prep := []func() *op{
-				func() *op { return opCreateMailbox(newMbox{remoteID: "LA", name: "A", flags: []string{`\Seen`}, perm: []string{`\Seen`, `\*`}, uidValidity: 7}) },
-				func() *op { return opCreateMailbox(newMbox{remoteID: "LB", name: "B", attrs: []string{`\Marked`}, uidValidity: 8}) },
+				func() *op {
+					return opCreateMailbox(newMbox{remoteID: "LA", name: "A", flags: []string{`\Seen`}, perm: []string{`\Seen`, `\*`}, uidValidity: 7})
+				},
+				func() *op {
+					return opCreateMailbox(newMbox{remoteID: "LB", name: "B", attrs: []string{`\Marked`}, uidValidity: 8})
+				},
 				func() *op { return opCreateMailbox(newMbox{remoteID: "LC", name: "A/C", uidValidity: 9}) },
 			}
 
@@ -484,7 +493,7 @@ func bulkCase(t *rapid.T, method string) {
 			nOps := before + 1 + after
 			abortAt := -1
 
-			if g.chance("abort", 30) {
+			if g.chance("abort", 20) {
 				abortAt = rapid.IntRange(before+1, nOps).Draw(t, "abortat") // after the bulk operation
 			}
 
@@ -522,23 +531,25 @@ func bulkCase(t *rapid.T, method string) {
 }
 
 func bulkTest(t *testing.T, method string) {
-	ev.Checks(2, 6)
+	ev.Checks(2, 8)
 	rapid.Check(t, func(t *rapid.T) { bulkCase(t, method) })
 }
 
-func TestBulk_MailboxTranslateRemoteIDs(t *testing.T)     { bulkTest(t, "MailboxTranslateRemoteIDs") }
-func TestBulk_MailboxFilterContains(t *testing.T)         { bulkTest(t, "MailboxFilterContains") }
-func TestBulk_GetMessagesFlags(t *testing.T)              { bulkTest(t, "GetMessagesFlags") }
-func TestBulk_AddMessagesToMailbox(t *testing.T)          { bulkTest(t, "AddMessagesToMailbox") }
-func TestBulk_RemoveMessagesFromMailbox(t *testing.T)     { bulkTest(t, "RemoveMessagesFromMailbox") }
-func TestBulk_SetMailboxMessagesDeletedFlag(t *testing.T) { bulkTest(t, "SetMailboxMessagesDeletedFlag") }
-func TestBulk_AddFlagsToAllMailboxes(t *testing.T)        { bulkTest(t, "AddFlagsToAllMailboxes") }
-func TestBulk_AddPermFlagsToAllMailboxes(t *testing.T)    { bulkTest(t, "AddPermFlagsToAllMailboxes") }
-func TestBulk_CreateMessages(t *testing.T)                { bulkTest(t, "CreateMessages") }
-func TestBulk_DeleteMessages(t *testing.T)                { bulkTest(t, "DeleteMessages") }
-func TestBulk_AddFlagToMessages(t *testing.T)             { bulkTest(t, "AddFlagToMessages") }
-func TestBulk_RemoveFlagFromMessages(t *testing.T)        { bulkTest(t, "RemoveFlagFromMessages") }
-func TestBulk_SetFlagsOnMessages(t *testing.T)            { bulkTest(t, "SetFlagsOnMessages") }
+func TestBulk_MailboxTranslateRemoteIDs(t *testing.T) { bulkTest(t, "MailboxTranslateRemoteIDs") }
+func TestBulk_MailboxFilterContains(t *testing.T)     { bulkTest(t, "MailboxFilterContains") }
+func TestBulk_GetMessagesFlags(t *testing.T)          { bulkTest(t, "GetMessagesFlags") }
+func TestBulk_AddMessagesToMailbox(t *testing.T)      { bulkTest(t, "AddMessagesToMailbox") }
+func TestBulk_RemoveMessagesFromMailbox(t *testing.T) { bulkTest(t, "RemoveMessagesFromMailbox") }
+func TestBulk_SetMailboxMessagesDeletedFlag(t *testing.T) {
+	bulkTest(t, "SetMailboxMessagesDeletedFlag")
+}
+func TestBulk_AddFlagsToAllMailboxes(t *testing.T)     { bulkTest(t, "AddFlagsToAllMailboxes") }
+func TestBulk_AddPermFlagsToAllMailboxes(t *testing.T) { bulkTest(t, "AddPermFlagsToAllMailboxes") }
+func TestBulk_CreateMessages(t *testing.T)             { bulkTest(t, "CreateMessages") }
+func TestBulk_DeleteMessages(t *testing.T)             { bulkTest(t, "DeleteMessages") }
+func TestBulk_AddFlagToMessages(t *testing.T)          { bulkTest(t, "AddFlagToMessages") }
+func TestBulk_RemoveFlagFromMessages(t *testing.T)     { bulkTest(t, "RemoveFlagFromMessages") }
+func TestBulk_SetFlagsOnMessages(t *testing.T)         { bulkTest(t, "SetFlagsOnMessages") }
 
 // TestBulkRulesComplete: every rule that takes a list has a bulk test (guards against a forgotten method).
 func TestBulkRulesComplete(t *testing.T) {
